@@ -59,6 +59,7 @@ func loadGen(dir string) (*Gen, error) {
 		return nil, err
 	}
 	g.resolveAnnotations()
+	g.computeMutableGlobals()
 	g.computeSummaries()
 	g.computeSpawned()
 	return g, nil
